@@ -1,6 +1,6 @@
 (* C28 — proofs over Model/C28.v *)
 From Coq Require Import ZArith List Bool Lia ZifyBool.
-From PV Require Import Bytes C28.
+From PV Require Import Bytes C28 C28_gen.
 Import ListNotations.
 Open Scope Z_scope.
 
@@ -883,6 +883,427 @@ Qed.
 Lemma env_idle file s l : unsent s = [] -> pending s = [] -> inflight s = [] -> env_step file s l = None.
 Proof. intros A B C. destruct l as [i|i|i k f]; cbn; rewrite ?A, ?B, ?C; destruct i; reflexivity. Qed.
 
+(* ---- deadlock freedom of the reader / prefetch-thread / wire interleaving ----------------------- *)
+Definition keys {V} (d : dict V) : list Z := map fst d.
+
+Record live_ok (s : state) : Prop := {
+  l_ext_inf : forall num, In num (keys (extents s)) -> In num (keys (inflight s));
+  l_pend_inf : forall num, In num (keys (pending s)) -> In num (keys (inflight s)) /\ ~ In num (keys (extents s));
+  l_inf_cov : forall num, In num (keys (inflight s)) -> In num (keys (extents s)) \/ In num (keys (pending s));
+  l_nodup_inf : NoDup (keys (inflight s));
+  l_nodup_pend : NoDup (keys (pending s));
+  l_done : prefetching s = true -> pdone s = false -> unsent s <> [] \/ pending s <> [] \/ extents s <> [];
+  l_cap : forall o n cap, In (o, n, cap) (unsent s) -> 0 <= cap
+}.
+
+Definition work (s : state) : Prop := unsent s <> [] \/ pending s <> [] \/ inflight s <> [].
+
+Lemma keys_dset {V} (d : dict V) k v x : In x (keys (dset d k v)) <-> x = k \/ In x (keys d).
+Proof.
+  induction d as [|[k' v'] r IH]; cbn.
+  - intuition.
+  - destruct (k' =? k) eqn:E; cbn.
+    + assert (k' = k) by lia. subst. intuition.
+    + rewrite IH. intuition.
+Qed.
+
+Lemma keys_ddel {V} (d : dict V) k x : In x (keys (ddel d k)) <-> x <> k /\ In x (keys d).
+Proof.
+  induction d as [|[k' v'] r IH]; cbn.
+  - intuition.
+  - destruct (k' =? k) eqn:E; cbn.
+    + rewrite IH. assert (k' = k) by lia. subst. intuition congruence.
+    + rewrite IH. assert (k' <> k) by lia. intuition congruence.
+Qed.
+
+Lemma dget_keys {V} (d : dict V) k : In k (keys d) <-> dget d k <> None.
+Proof.
+  induction d as [|[k' v'] r IH]; cbn.
+  - intuition.
+  - destruct (k' =? k) eqn:E.
+    + assert (k' = k) by lia. split; [intros _; discriminate|intros _; now left].
+    + rewrite <- IH. assert (k' <> k) by lia. intuition congruence.
+Qed.
+
+Lemma in_keys {V} (d : dict V) k v : In (k, v) d -> In k (keys d).
+Proof. intros H. unfold keys. change k with (fst (k, v)). now apply in_map. Qed.
+
+Lemma keys_app {V} (a b : dict V) : keys (a ++ b) = keys a ++ keys b.
+Proof. unfold keys. apply map_app. Qed.
+
+Lemma keys_remove_nth {V} i : forall (l : dict V) k v x,
+  nth_error l i = Some (k, v) ->
+  (x <> k -> In x (keys l) -> In x (keys (remove_nth i l))) /\
+  (In x (keys (remove_nth i l)) -> In x (keys l)) /\
+  (NoDup (keys l) -> In x (keys (remove_nth i l)) -> x <> k) /\
+  (NoDup (keys l) -> NoDup (keys (remove_nth i l))).
+Proof.
+  induction i as [|i IH]; intros [|[k' v'] t] k v x; cbn; try discriminate.
+  - intros H. injection H as -> ->. repeat split.
+    + intros Hx [H|H]; [congruence|exact H].
+    + auto.
+    + intros Hn Hin ->. inversion Hn; subst. contradiction.
+    + intros Hn. now inversion Hn.
+  - intros H. destruct (IH t k v x H) as (A & B & C & D). repeat split.
+    + intros Hx [Hin|Hin]; [now left|right; auto].
+    + intros [Hin|Hin]; [now left|right; auto].
+    + intros Hn [Hin|Hin].
+      * subst x. intros ->. inversion Hn; subst. apply nth_error_In in H. apply in_keys in H. contradiction.
+      * inversion Hn; subst. auto.
+    + intros Hn. inversion Hn as [|? ? Hni Hn']; subst. constructor; [|auto].
+      intros Hin. apply Hni. destruct (IH t k v k' H) as (_ & B' & _ & _). auto.
+Qed.
+
+Lemma NoDup_snoc (l : list Z) k : NoDup l -> ~ In k l -> NoDup (l ++ [k]).
+Proof.
+  induction l as [|h t IH]; cbn; intros Hn Hk.
+  - constructor; [intros []|constructor].
+  - inversion Hn; subst. constructor.
+    + rewrite in_app_iff. cbn. intuition.
+    + apply IH; intuition.
+Qed.
+
+Arguments keys : simpl never.
+
+Lemma live_env file s l s' :
+  inv file s -> live_ok s -> env_step file s l = Some s' -> live_ok s'.
+Proof.
+  intros [_ Hw] Hl. destruct l as [i|i|i k fail]; cbn [env_step].
+  - destruct (nth_error (unsent s) i) as [[[o n] cap]|] eqn:En; [|discriminate].
+    destruct ((cap =? 0) || (zlen (extents s) <? cap)); [|discriminate].
+    intros H. injection H as <-.
+    assert (Hfresh_inf : ~ In (nextnum s) (keys (inflight s))).
+    { intros Hin. apply in_map_iff in Hin as ([x c] & Hx & Hin). cbn in Hx. subst x.
+      pose proof (w_inf_lt s Hw _ _ Hin). lia. }
+    assert (Hfresh_pend : ~ In (nextnum s) (keys (pending s))).
+    { intros Hin. apply in_map_iff in Hin as ([x c] & Hx & Hin). cbn in Hx. subst x.
+      pose proof (w_pend_lt s Hw _ _ Hin). lia. }
+    assert (Hfresh_ext : ~ In (nextnum s) (keys (extents s))).
+    { intros Hin. apply dget_keys in Hin. destruct (dget (extents s) (nextnum s)) as [c|] eqn:E; [|congruence].
+      pose proof (w_ext_lt s Hw _ _ E). lia. }
+    constructor; cbn; rewrite ?keys_app; change (keys [(nextnum s, (o, n))]) with [nextnum s].
+    + intros num H. apply in_or_app. left. now apply (l_ext_inf s Hl).
+    + intros num H. apply in_app_or in H as [H|[<-|[]]].
+      * destruct (l_pend_inf s Hl _ H) as [A B]. split; [apply in_or_app; now left|exact B].
+      * split; [apply in_or_app; right; now left|exact Hfresh_ext].
+    + intros num H. apply in_app_or in H as [H|[<-|[]]].
+      * destruct (l_inf_cov s Hl _ H) as [A|A]; [now left|right; apply in_or_app; now left].
+      * right. apply in_or_app. right. now left.
+    + apply NoDup_snoc; [apply (l_nodup_inf s Hl)|exact Hfresh_inf].
+    + apply NoDup_snoc; [apply (l_nodup_pend s Hl)|exact Hfresh_pend].
+    + intros _ _. right. left. destruct (pending s); discriminate.
+    + intros o' n' cap' H. apply remove_nth_in in H. exact (l_cap s Hl _ _ _ H).
+  - destruct (nth_error (pending s) i) as [[num c]|] eqn:En; [|discriminate].
+    intros H. injection H as <-.
+    pose proof (nth_error_In _ _ En) as Hin. apply in_keys in Hin.
+    constructor; cbn.
+    + intros x H. apply keys_dset in H as [->|H]; [apply (l_pend_inf s Hl _ Hin)|now apply (l_ext_inf s Hl)].
+    + intros x H.
+      destruct (keys_remove_nth i (pending s) num c x En) as (_ & B & C & _).
+      pose proof (C (l_nodup_pend s Hl) H) as Hne. destruct (l_pend_inf s Hl _ (B H)) as [P Q].
+      split; [exact P|]. rewrite keys_dset. intuition.
+    + intros x H. destruct (l_inf_cov s Hl _ H) as [A|A].
+      * left. apply keys_dset. now right.
+      * destruct (Z.eq_dec x num) as [->|Hne]; [left; apply keys_dset; now left|].
+        right. destruct (keys_remove_nth i (pending s) num c x En) as (A' & _). auto.
+    + apply (l_nodup_inf s Hl).
+    + destruct (keys_remove_nth i (pending s) num c num En) as (_ & _ & _ & D). apply D, (l_nodup_pend s Hl).
+    + intros _ _. right. right. destruct (extents s) as [|[k' v'] t]; cbn; [discriminate|].
+      destruct (k' =? num); discriminate.
+    + exact (l_cap s Hl).
+  - destruct (nth_error (inflight s) i) as [[num [o n]]|] eqn:En; [|discriminate].
+    unfold async_response. destruct (dget (extents s) num) as [[eo el]|] eqn:Ee; [|discriminate].
+    intros H. injection H as <-.
+    assert (Hreg : In num (keys (extents s))) by (apply dget_keys; congruence).
+    constructor; cbn.
+    + intros x H. apply keys_ddel in H as [Hne H].
+      destruct (keys_remove_nth i (inflight s) num (o, n) x En) as (A & _). apply A; [exact Hne|].
+      now apply (l_ext_inf s Hl).
+    + intros x H. destruct (l_pend_inf s Hl _ H) as [P Q]. split.
+      * destruct (keys_remove_nth i (inflight s) num (o, n) x En) as (A & _). apply A; [|exact P].
+        intros ->. contradiction.
+      * rewrite keys_ddel. intuition.
+    + intros x H. destruct (keys_remove_nth i (inflight s) num (o, n) x En) as (_ & B & C & _).
+      pose proof (C (l_nodup_inf s Hl) H) as Hne.
+      destruct (l_inf_cov s Hl _ (B H)) as [A|A]; [left; apply keys_ddel; now split|now right].
+    + destruct (keys_remove_nth i (inflight s) num (o, n) num En) as (_ & _ & _ & D). apply D, (l_nodup_inf s Hl).
+    + apply (l_nodup_pend s Hl).
+    + intros _. destruct (ddel (extents s) num) as [|x t] eqn:Ed; cbn; [discriminate|].
+      intros Hd. right. right. discriminate.
+    + exact (l_cap s Hl).
+Qed.
+
+(* some step of the environment is always enabled while anything is outstanding: the oldest in-flight
+   reply can be delivered (its extent is registered) or its registration can happen; otherwise a
+   registration or a send is enabled (a capped thread is never starved: extents drain) *)
+Lemma progress file s k :
+  inv file s -> live_ok s -> work s ->
+  exists l s', env_step file s l = Some s' /\
+               (l = LDeliver 0 k false \/ (exists i, l = LReg i) \/ l = LSend 0).
+Proof.
+  intros Hi Hl Hwk. destruct (inflight s) as [|[num [o n]] t] eqn:Ei.
+  - destruct (pending s) as [|[pn pc] pt] eqn:Ep.
+    + destruct Hwk as [Hu|[Hp|Hf]]; try congruence.
+      destruct (unsent s) as [|[[o n] cap] ut] eqn:Eu; [congruence|].
+      assert (He : extents s = []).
+      { destruct (extents s) as [|[x c] et] eqn:Ee; [reflexivity|].
+        pose proof (l_ext_inf s Hl x) as H. rewrite Ee, Ei in H. cbn in H. exfalso. apply H. now left. }
+      pose proof (l_cap s Hl o n cap) as Hc. rewrite Eu in Hc. specialize (Hc (or_introl eq_refl)).
+      eexists (LSend 0), _. split; [|auto]. cbn. rewrite Eu. cbn. rewrite He. cbn.
+      destruct (cap =? 0) eqn:E0; cbn; [reflexivity|].
+      destruct (0 <? cap) eqn:E1; [reflexivity|lia].
+    + eexists (LReg 0), _. split; [|right; left; now exists 0%nat]. cbn. rewrite Ep. reflexivity.
+  - pose proof (l_inf_cov s Hl num) as Hc. rewrite Ei in Hc. specialize (Hc (or_introl eq_refl)).
+    destruct Hc as [Hc|Hc].
+    + apply dget_keys in Hc. destruct (dget (extents s) num) as [[eo el]|] eqn:Ee; [|congruence].
+      eexists (LDeliver 0 k false), _. split; [|now left]. cbn. rewrite Ei. cbn.
+      unfold async_response. rewrite Ee. reflexivity.
+    + apply in_map_iff in Hc as ([x c] & Hx & Hin). apply In_nth_error in Hin as [i Hi'].
+      eexists (LReg i), _. split; [|right; left; now exists i]. cbn. rewrite Hi'. reflexivity.
+Qed.
+
+(* with nothing outstanding the wait loop does not wait *)
+Lemma quiescent_exits file sched s :
+  live_ok s -> prefetching s = true -> ~ work s -> snd (wait_loop file sched s) <> WBlocked.
+Proof.
+  intros Hl Hp Hnw. destruct (pdone s) eqn:Ed; [now apply wait_done_never_blocks|].
+  exfalso. apply Hnw. destruct (l_done s Hl Hp Ed) as [H|[H|H]]; [now left|right; now left|].
+  right. right. destruct (extents s) as [|[x c] t] eqn:Ee; [congruence|].
+  pose proof (l_ext_inf s Hl x) as Hin. rewrite Ee in Hin. specialize (Hin (or_introl eq_refl)).
+  destruct (inflight s); [contradiction|discriminate].
+Qed.
+
+(* live_ok only looks at the fields the reader's own steps leave alone *)
+Definition env_eq (s s' : state) : Prop :=
+  extents s' = extents s /\ pdone s' = pdone s /\ unsent s' = unsent s /\ pending s' = pending s /\
+  inflight s' = inflight s /\ (prefetching s' = true -> prefetching s = true).
+
+Lemma live_eq s s' : env_eq s s' -> live_ok s -> live_ok s'.
+Proof.
+  intros (A & B & C & D & E & F) [L1 L2 L3 L4 L5 L6 L7].
+  constructor; rewrite ?A, ?B, ?C, ?D, ?E; try assumption.
+  intros Hp. apply L6. now apply F.
+Qed.
+
+Ltac env_eq_tac :=
+  unfold env_eq; repeat split; cbn; try reflexivity;
+  try (let Hx := fresh in intros Hx; first [exact Hx | discriminate Hx]).
+
+Lemma live_start_prefetch s cs cap : 0 <= cap -> live_ok s -> live_ok (start_prefetch s cs cap).
+Proof.
+  intros Hc [L1 L2 L3 L4 L5 L6 L7]. unfold start_prefetch. destruct cs as [|c r]; cbn [is_nil].
+  - constructor; assumption.
+  - constructor; cbn; auto.
+    + intros _ _. left. destruct (unsent s); discriminate.
+    + intros o n cap' H. apply in_app_or in H as [H|H]; [eauto|].
+      destruct H as [H|H]; [injection H as <- <- <-; exact Hc|].
+      apply in_map_iff in H as (x & He & _). injection He as <- <- <-. exact Hc.
+Qed.
+
+Lemma live_init n : live_ok (init_state n).
+Proof.
+  constructor; cbn.
+  - intros num [].
+  - intros num [].
+  - intros num [].
+  - constructor.
+  - constructor.
+  - discriminate.
+  - intros o n' cap [].
+Qed.
+
+(* the invariants travel through the reader's operations *)
+Lemma run_env_live file sched : forall s,
+  inv file s -> Forall lab_ok sched -> live_ok s -> live_ok (run_env file sched s).
+Proof.
+  induction sched as [|l r IH]; intros s Hi Hl Hv; cbn; [exact Hv|].
+  inversion Hl as [|? ? Hl1 Hl2]; subst.
+  destruct (env_step file s l) as [s'|] eqn:E; [|now apply IH].
+  destruct (env_step_inv _ _ _ _ Hi Hl1 E) as (Hi' & _).
+  apply IH; [exact Hi'|exact Hl2|exact (live_env _ _ _ _ Hi Hv E)].
+Qed.
+
+Lemma wait_loop_live file sched : forall s s1 w,
+  inv file s -> saved s = false -> Forall lab_ok sched -> live_ok s ->
+  wait_loop file sched s = (s1, w) -> live_ok s1.
+Proof.
+  induction sched as [|l r IH]; intros s s1 w Hi Hsv Hl Hv; cbn.
+  - destruct (data_in_buffers (data s) (realpos s)); [|destruct (pdone s)]; intros H; injection H as <- <-; exact Hv.
+  - inversion Hl as [|? ? Hl1 Hl2]; subst.
+    destruct (data_in_buffers (data s) (realpos s)); [intros H; injection H as <- <-; exact Hv|].
+    destruct (pdone s); [intros H; injection H as <- <-; exact Hv|].
+    destruct (env_step file s l) as [s'|] eqn:E; [|now apply IH].
+    destruct (env_step_inv _ _ _ _ Hi Hl1 E) as (Hi' & _ & _ & Hsv').
+    rewrite (Hsv' Hsv), andb_false_r. apply IH; [exact Hi'|exact (Hsv' Hsv)|exact Hl2|exact (live_env _ _ _ _ Hi Hv E)].
+Qed.
+
+Lemma read_prefetch_live file sched s size s1 r :
+  inv file s -> saved s = false -> Forall lab_ok sched -> live_ok s ->
+  read_prefetch file sched s size = (s1, r) -> live_ok s1.
+Proof.
+  intros Hi Hsv Hl Hv. unfold read_prefetch.
+  destruct (wait_loop file sched s) as [s0 w] eqn:Ew.
+  pose proof (wait_loop_live _ _ _ _ _ Hi Hsv Hl Hv Ew) as Hv0.
+  destruct w as [offset| | |].
+  - destruct (dget (data s0) offset); intros H; injection H as <- <-; [|exact Hv0].
+    eapply live_eq; [|exact Hv0]. env_eq_tac.
+  - intros H; injection H as <- <-. eapply live_eq; [|exact Hv0]. env_eq_tac.
+  - intros H; injection H as <- <-. exact Hv0.
+  - intros H; injection H as <- <-. exact Hv0.
+Qed.
+
+Lemma sread_live file maxreq o s size0 s1 r :
+  inv file s -> saved s = false -> orc_ok o -> 1 <= size0 -> 1 <= maxreq -> live_ok s ->
+  sread file maxreq o s size0 = (s1, r) -> live_ok s1.
+Proof.
+  intros Hi Hsv (Hw & Hs & Hk & Hf) Hsz Hm Hv. unfold sread.
+  destruct (if prefetching s then read_prefetch file (o_wait o) s (Z.min size0 maxreq) else (s, RdNone)) as [s0 r0] eqn:E.
+  assert (H0 : inv file s0 /\ live_ok s0).
+  { destruct (prefetching s).
+    - split; [|exact (read_prefetch_live _ _ _ _ _ _ Hi Hsv Hw Hv E)].
+      destruct (read_prefetch_ok file (o_wait o) s (Z.min size0 maxreq) s0 r0 Hi Hsv Hw ltac:(lia) E) as (X & _).
+      exact X.
+    - injection E as <- <-. auto. }
+  destruct H0 as [Hi0 Hv0].
+  assert (Hb : live_ok (run_env file (o_sync o) (bump s0))).
+  { apply run_env_live; [now apply bump_inv|exact Hs|]. eapply live_eq; [|exact Hv0]. env_eq_tac. }
+  destruct r0; try (intros H; injection H as <- <-; exact Hv0).
+  destruct (server_read _ _ _ _ _); intros H; injection H as <- <-; exact Hb.
+Qed.
+
+Lemma read_loop_live file maxreq bufsize orcs : forall s size s1 st,
+  inv file s -> saved s = false -> rb_ok file s -> Forall orc_ok orcs -> 1 <= maxreq -> live_ok s ->
+  read_loop file maxreq bufsize orcs s size = (s1, st) -> live_ok s1.
+Proof.
+  induction orcs as [|o r IH]; intros s size s1 st Hi Hsv Hrb Ho Hm Hv; cbn.
+  - destruct (size <=? zlen (rbuffer s)); intros H; injection H as <- <-; exact Hv.
+  - destruct (size <=? zlen (rbuffer s)) eqn:E; [intros H; injection H as <- <-; exact Hv|].
+    inversion Ho as [|? ? Ho1 Ho2]; subst.
+    set (rs := if 0 <? bufsize then Z.max bufsize (size - zlen (rbuffer s)) else size - zlen (rbuffer s)).
+    assert (Hrs : 1 <= rs) by (unfold rs; destruct (0 <? bufsize); lia).
+    destruct (sread file maxreq o s rs) as [s0 r0] eqn:Es.
+    pose proof Hrb as (Hvv & Hrp & Hps).
+    pose proof (zlen_nonneg (rbuffer s)) as Hnn.
+    destruct (sread_ok _ _ _ _ _ _ _ Hi Hsv Ho1 Hrs Hm ltac:(lia) Es) as (Hi0 & (Hrp0 & Hps0 & Hrb0) & Hsv0 & Hr).
+    pose proof (sread_live _ _ _ _ _ _ _ Hi Hsv Ho1 Hrs Hm Hv Es) as Hv0.
+    destruct r0 as [d| | | |]; try (intros H; injection H as <- <-; exact Hv0).
+    destruct Hr as (Hne & Hvd & _).
+    destruct d as [|x d']; [congruence|]. cbn [is_nil].
+    intros H. eapply IH; [| | | | |  |exact H]; auto.
+    + destruct Hi0 as [Hb0 Hw0]. split; [exact Hb0|now apply set_file_wire].
+    + unfold rb_ok. cbn [pos realpos rbuffer set_file]. rewrite Hps0, Hrb0, Hrp0, zlen_app.
+      split; [|lia]. apply valid_app; [assumption|]. now rewrite <- Hrp.
+    + eapply live_eq; [|exact Hv0]. env_eq_tac.
+Qed.
+
+Lemma bf_read_live file maxreq bufsize orcs s size s1 out :
+  inv file s -> saved s = false -> rb_ok file s -> Forall orc_ok orcs -> 1 <= maxreq -> live_ok s ->
+  bf_read file maxreq bufsize orcs s size = (s1, out) -> live_ok s1.
+Proof.
+  intros Hi Hsv Hrb Ho Hm Hv. unfold bf_read.
+  destruct (read_loop file maxreq bufsize orcs s size) as [s0 st] eqn:E.
+  pose proof (read_loop_live _ _ _ _ _ _ _ _ Hi Hsv Hrb Ho Hm Hv E) as Hv0.
+  destruct st; intros H; injection H as <- <-; try exact Hv0.
+  eapply live_eq; [|exact Hv0]. env_eq_tac.
+Qed.
+
+Definition action_caps_ok (a : action) : Prop :=
+  match a with
+  | APrefetch _ _ cap => 0 <= cap
+  | AReadv _ _ _ _ cap => 0 <= cap
+  | _ => True
+  end.
+
+Lemma readv_reads_live file maxreq bufsize : forall chunks orcss s s1 outs,
+  good file s -> live_ok s -> 1 <= maxreq ->
+  Forall (fun c => 0 <= fst c /\ 0 <= snd c) chunks -> Forall (Forall orc_ok) orcss ->
+  readv_reads file maxreq bufsize orcss s chunks = (s1, outs) -> live_ok s1.
+Proof.
+  induction chunks as [|[o n] r IH]; intros orcss s s1 outs Hg Hv Hm Hc Ho; cbn.
+  - intros H. injection H as <- <-. exact Hv.
+  - inversion Hc as [|? ? [Hc1 Hc1'] Hc2]; subst. cbn in Hc1, Hc1'.
+    set (orcs := match orcss with x :: _ => x | [] => [] end).
+    assert (Horcs : Forall orc_ok orcs) by (destruct orcss; [constructor|now inversion Ho]).
+    assert (Htl : Forall (Forall orc_ok) (tl orcss)) by (destruct orcss; [constructor|now inversion Ho]).
+    assert (Hgs : good file (seek s o)).
+    { apply (do_action_good file s (ASeek o)); auto. }
+    assert (Hvs : live_ok (seek s o)) by (eapply live_eq; [|exact Hv]; env_eq_tac).
+    destruct (bf_read file maxreq bufsize orcs (seek s o) n) as [s2 out] eqn:Eb.
+    assert (Hg2 : good file s2).
+    { apply (do_action_good file (seek s o) (ARead maxreq bufsize orcs n)); auto; cbn; auto. now rewrite Eb. }
+    destruct Hgs as (Hi1 & Hrb1 & Hsv1).
+    pose proof (bf_read_live _ _ _ _ _ _ _ _ Hi1 Hsv1 Hrb1 Horcs Hm Hvs Eb) as Hv2.
+    destruct (readv_reads file maxreq bufsize (tl orcss) s2 r) as [s3 outs'] eqn:Er.
+    intros H. injection H as <- <-. eapply IH; eauto.
+Qed.
+
+Lemma do_action_live file s a s' :
+  good file s -> live_ok s -> action_ok a -> action_caps_ok a -> do_action file s a = Some s' -> live_ok s'.
+Proof.
+  intros Hg Hv Ha Hc. pose proof Hg as (Hi & Hrb & Hsv).
+  destruct a as [l|maxreq bufsize orcs size|o|maxreq fs cap|maxreq bufsize orcss chunks cap]; cbn in Ha, Hc |- *.
+  - intros H. eapply live_env; eauto.
+  - destruct Ha as (Ho & Hm & Hs). intros H. injection H as <-.
+    destruct (bf_read file maxreq bufsize orcs s size) as [s1 out] eqn:E. cbn.
+    eapply bf_read_live; eauto.
+  - intros H. injection H as <-. eapply live_eq; [|exact Hv]. env_eq_tac.
+  - intros H. injection H as <-. unfold prefetch. now apply live_start_prefetch.
+  - destruct Ha as (Ho & Hm & Hch). unfold readv.
+    destruct (readv_plan maxreq (data s) (extents s) chunks) as [rc|] eqn:Ep; [|discriminate].
+    destruct (readv_reads file maxreq bufsize orcss (start_prefetch s rc cap) chunks) as [s1 outs] eqn:Er.
+    intros H. injection H as <-.
+    destruct (readv_plan_pos _ _ _ _ _ Hm ltac:(eapply Forall_impl; [|exact Hch]; cbn; tauto) Ep) as [Hrc _].
+    destruct (start_prefetch_ok file s rc cap Hi Hrc) as (A & B & C).
+    eapply readv_reads_live; [| | | | |exact Er]; auto.
+    + split; [exact A|]. split; [eapply rb_ok_same; eauto|congruence].
+    + now apply live_start_prefetch.
+Qed.
+
+(* reachable states: from a freshly opened file by any reader operations and environment steps *)
+Lemma reachable_live file acts : forall s s',
+  good file s -> live_ok s -> Forall action_ok acts -> Forall action_caps_ok acts ->
+  do_actions file s acts = Some s' -> good file s' /\ live_ok s'.
+Proof.
+  induction acts as [|a r IH]; intros s s' Hg Hv Ha Hc; cbn.
+  - intros H. injection H as <-. auto.
+  - inversion Ha as [|? ? Ha1 Ha2]; subst. inversion Hc as [|? ? Hc1 Hc2]; subst.
+    destruct (do_action file s a) as [s0|] eqn:E; [|discriminate].
+    apply IH; auto.
+    + eapply do_action_good; eauto.
+    + eapply do_action_live; eauto.
+Qed.
+
+(* C28_terminates *)
+Lemma terminates file acts n s :
+  Forall action_ok acts -> Forall action_caps_ok acts ->
+  do_actions file (init_state n) acts = Some s ->
+  (* (a) while anything is outstanding some environment step is enabled -- the oldest reply can be
+         dispatched, or the registration it spins on, or a send -- and it leads to a reachable state
+         with a smaller measure *)
+  (work s -> forall k, 1 <= k ->
+     exists l s', env_step file s l = Some s' /\ lab_ok l /\ (measure s' < measure s)%nat /\
+                  good file s' /\ live_ok s') /\
+  (* (b) every environment step, enabled in whatever order, consumes the measure: at most `measure s`
+         of them can happen *)
+  (forall l s', env_step file s l = Some s' -> (measure s' < measure s)%nat) /\
+  (* (c) with nothing outstanding the reader's wait loop does not wait *)
+  (prefetching s = true -> ~ work s -> forall sched, snd (wait_loop file sched s) <> WBlocked).
+Proof.
+  intros Ha Hc Hr.
+  destruct (reachable_live file acts _ _ (good_init n file) (live_init n) Ha Hc Hr) as [Hg Hv].
+  split; [|split].
+  - intros Hw k Hk. pose proof Hg as (Hi & Hrb & Hsv).
+    destruct (progress file s k Hi Hv Hw) as (l & s' & Hs & Hl).
+    assert (Hlab : lab_ok l).
+    { destruct Hl as [->|[[i ->]| ->]]; cbn; auto. }
+    exists l, s'. split; [exact Hs|]. split; [exact Hlab|]. split; [eapply env_step_measure; eauto|].
+    split.
+    + apply (do_action_good file s (AEnv l)); auto.
+    + eapply live_env; eauto.
+  - intros l s'. apply env_step_measure.
+  - intros Hp Hnw sched. now apply quiescent_exits.
+Qed.
+
 (* the code before the repair: an EOF status keeps its extent and _prefetch_done stays false; with the
    wire idle the reader then waits forever, whatever the environment does *)
 Definition stuck_v0 : state := mkState [] [(1, (600, 10))] false true true 0 0 [] [] [] [] 2.
@@ -898,3 +1319,22 @@ Proof.
   cbn [wait_loop]. change (data_in_buffers (data stuck_v0) (realpos stuck_v0)) with (@None Z).
   change (pdone stuck_v0) with false. cbv iota. rewrite env_idle by reflexivity. exact IH.
 Qed.
+
+(* ---- what the model hard-codes about the source, re-derived by gen/c28.py on every run --------------- *)
+Lemma src_shape :
+  src_async_spins_until_registered = true /\ src_async_releases_extent = true /\
+  src_async_stores_at_extent_offset = true /\ src_async_done_when_no_extent_left = true /\
+  src_async_eof_status_not_saved = true /\ src_start_prefetch_ignores_empty = true /\
+  src_start_prefetch_sets_flags = true /\ src_thread_registers_request_extent = true.
+Proof. repeat split; reflexivity. Qed.
+
+Lemma src_maxreq_pos : 1 <= src_max_request_size.
+Proof. vm_compute. discriminate. Qed.
+
+Lemma readv_exact_src file bufsize orcss s chunks cap s1 outs :
+  good file s -> Forall (Forall orc_ok) orcss ->
+  Forall (fun c => 0 <= fst c /\ 0 <= snd c) chunks ->
+  readv file src_max_request_size bufsize orcss s chunks cap = Some (s1, outs) ->
+  good file s1 /\
+  Forall2 (fun c out => out = OData (slice file (fst c) (snd c)) \/ out = OBlocked) chunks outs.
+Proof. intros Hg Ho Hc. apply readv_exact; auto. apply src_maxreq_pos. Qed.
